@@ -183,6 +183,8 @@ Next ==
     \/ "T" \in Acts /\ Tick
 
 Spec == Init /\ [][Next]_vars
+\* time passes: a clock tick that can happen does happen (liveness configuration InFlightSeqLive.cfg)
+FairSpec == Spec /\ WF_vars(Tick)
 
 -----------------------------------------------------------------------------
 \* What the harness compares after every step (the projection of the real handler).
@@ -257,4 +259,8 @@ CompleteOnLast ==
 TimeoutOnlyAfterSilence ==
     [][ \A i \in 1..Len(reqs) :
           (~reqs[i].done /\ reqs'[i].done /\ reqs'[i].err = "timeout") => reqs[i].timer = 1 /\ Tick ]_vars
+\* C16 (liveness, under FairSpec): a request whose response does not arrive does not stay open for ever - whatever else
+\* happens on the connection, every accepted request is eventually completed (by its response, by close, or by the read
+\* timeout once silence has lasted the whole timeout)
+EventuallyCompleted == \A i \in 1..MaxReq : (Len(reqs) >= i) ~> (Len(reqs) >= i /\ reqs[i].done)
 =============================================================================
